@@ -87,4 +87,23 @@ Proof.
   - rewrite lookup_delete. reflexivity.
 Qed.
 
+(* WHO with ANY mask (wildcards, nicknames, other channels' names, the secret channel's own name):
+   an outsider gets the same answer as in the world without the secret channel *)
+Theorem who_hides s c nick ch co mask :
+  c_nick c = Some nick -> chans s !! ch = Some co -> cm_secret (ch_modes co) = true -> nick ∉ dom (ch_users co) ->
+  outs (process_who cfg i (without ch s) c mask) = outs (process_who cfg i s c mask).
+Proof.
+  intros Hn Hco Hs Hm. unfold process_who, own_nick, get_user. rewrite Hn. cbn [rbind].
+  unfold without. cbn [users set_chans chans].
+  destruct (users s !! nick) as [viewer|]; cbn [rbind]; [|reflexivity].
+  destruct (contains c_star mask || contains c_qmark mask); [cbn [rbind hr outs h_out]; reflexivity|].
+  destruct (validate_channel mask).
+  2:{ destruct (validate_username mask); cbn [rbind hr outs h_out]; reflexivity. }
+  destruct (decide (mask = ch)) as [->|Hne].
+  - rewrite lookup_delete, Hco, Hs. cbn [negb orb]. rewrite bool_decide_eq_false_2 by exact Hm. cbn [rbind hr outs h_out]. reflexivity.
+  - rewrite lookup_delete_ne by congruence. destruct (chans s !! mask) as [co1|]; [|cbn [rbind hr outs h_out]; reflexivity].
+    destruct (negb (cm_secret (ch_modes co1)) || bool_decide (nick ∈ dom (ch_users co1))); [|cbn [rbind hr outs h_out]; reflexivity].
+    match goal with |- context [rfold ?F ?l ?a] => destruct (rfold F l a) end; cbn [rbind hr outs h_out]; reflexivity.
+Qed.
+
 End secret.
